@@ -87,6 +87,12 @@ class DType:
             if isinstance(op, ast.NotEq):
                 return M.not_(it, r)
             return r
+        if isinstance(other, TypeObj) and other.name in ("object", "bool") and isinstance(op, (ast.Eq, ast.NotEq)):
+            # np.dtype == Python class: the class is converted with np.dtype() first; object and bool have one dtype each
+            r = kind_eq(self.kind, other.name)
+            if isinstance(op, ast.NotEq):
+                return M.not_(it, r)
+            return r
         raise Unsupported("dtype comparison")
 
 
@@ -174,7 +180,7 @@ class NDArr:
         if not isinstance(other, NDArr):
             raise Unsupported("merge of array and non-array")
         from .loops import merge
-        k = self.kind if (isinstance(self.kind, str) and self.kind == other.kind) else z3.If(cond, kind_term(self.kind), kind_term(other.kind))
+        k = self.kind if (isinstance(self.kind, str) and isinstance(other.kind, str) and self.kind == other.kind) else z3.If(cond, kind_term(self.kind), kind_term(other.kind))
         if self.cls is not other.cls:
             raise Unsupported("merge of arrays of different classes")
         if self.base is not None and other.base is not None and self.base is other.base:
@@ -479,11 +485,20 @@ def coerce(it, e, fm, to):
     raise Unsupported("element coercion")
 
 
+def _link_filters(it, s, o):
+    """both operands are selections (boolean-mask filters): state the uniqueness lemma for their enumerations"""
+    e1, e2 = getattr(s, "enum", None), getattr(o, "enum", None)
+    if e1 is not None and e2 is not None and e1 is not e2:
+        from .core import Enum
+        Enum.link_conditional(it.ctx, e1, e2)
+
+
 def arr_compare(it, a, op, other, swapped):
     import ast
     s = a.seq
     if isinstance(other, NDArr):
         o = other.seq
+        _link_filters(it, s, o)
         if not it.ctx.branch(z3.Or(zint(o.len) == zint(s.len), zint(o.len) == 1, zint(s.len) == 1)):
             raise PyRaise("ValueError", "operands could not be broadcast")
         oe = lambda j: o.at(z3.If(zint(o.len) == 1, 0, j))
@@ -531,6 +546,7 @@ def arr_binop(it, a, op, other, swapped):
     s = a.seq
     if isinstance(other, NDArr):
         o = other.seq
+        _link_filters(it, s, o)
         if not it.ctx.branch(zint(o.len) == zint(s.len)):
             if not it.ctx.branch(z3.Or(zint(o.len) == 1, zint(s.len) == 1)):
                 raise PyRaise("ValueError", "operands could not be broadcast")
@@ -576,6 +592,30 @@ def arr_unop(it, a, op):
             ctx.axioms.append(z3.ForAll([x, y], (neg(x) == neg(y)) == (x == y), patterns=[z3.MultiPattern(neg(x), neg(y))]))
             ctx.axioms.append(z3.ForAll([x], z3.And(is_nan(neg(x)) == is_nan(x), is_nat(neg(x)) == is_nat(x)), patterns=[neg(x)]))
         it.ctx.used_models.add("unary minus (float/timedelta) and bitwise not (integers) on arrays reverse the order; NaN/NaT unchanged - assumed")
+        if isinstance(op, ast.USub):
+            # machine integers: -x wraps at the smallest signed value (order reversed only among the other values) and for
+            # every non-zero unsigned value (no order statement at all); only float / timedelta negation is exact
+            negi, negu = z3.Function("neg_int", V, V), z3.Function("neg_uint", V, V)
+            is_min = z3.Function("is_int_min", V, BOOL)
+            if "neg_int" not in done:
+                done.add("neg_int")
+                ctx.axioms.append(z3.ForAll([x, y], z3.Implies(z3.And(z3.Not(is_min(x)), z3.Not(is_min(y))), v_lt(negi(x), negi(y)) == v_lt(y, x)),
+                                            patterns=[z3.MultiPattern(negi(x), negi(y))]))
+                ctx.axioms.append(z3.ForAll([x, y], (negi(x) == negi(y)) == (x == y), patterns=[z3.MultiPattern(negi(x), negi(y))]))
+                ctx.axioms.append(z3.ForAll([x, y], (negu(x) == negu(y)) == (x == y), patterns=[z3.MultiPattern(negu(x), negu(y))]))
+                ctx.axioms.append(z3.ForAll([x], z3.And(z3.Not(is_nan(negi(x))), z3.Not(is_nat(negi(x))), z3.Not(is_nan(negu(x))), z3.Not(is_nat(negu(x)))),
+                                            patterns=[negi(x)]))
+                it.ctx.used_models.add("unary minus on signed integers reverses the order except at the smallest value (wraps); on unsigned integers nothing is assumed")
+            exact = kind_is(a.kind, "float", "timedelta")
+            signed = kind_is(a.kind, "int")
+            if exact is True or (isinstance(a.kind, str) and a.kind in ("float", "timedelta")):
+                pass
+            elif isinstance(a.kind, str):
+                f = negi if a.kind == "int" else negu
+                return NDArr(it.ctx, Seq(s.len, lambda j: f(s.at(j)), V), a.kind, "fresh", a.cls)
+            else:
+                return NDArr(it.ctx, Seq(s.len, lambda j: z3.If(exact, neg(s.at(j)), z3.If(signed, negi(s.at(j)), negu(s.at(j)))), V),
+                             a.kind, "fresh", a.cls)
         return NDArr(it.ctx, Seq(s.len, lambda j: neg(s.at(j)), V), a.kind, "fresh", a.cls)
     raise Unsupported("array unary operator")
 
@@ -886,6 +926,10 @@ def _np_fromiter(it, args, kwargs):
 
 def _np_issubdtype(it, args, kwargs):
     d, t = args
+    if M.is_v(d) and isinstance(t, TypeObj) and t.name in M.SUBDTYPE:
+        # a symbolic class (element of a set of classes)
+        it.ctx.used_models.add("np.issubdtype(class, np.floating/np.integer): known classes by table (timedelta64 counts as integer), others uninterpreted")
+        return M._class_pred(it.ctx, "issubdtype_" + t.name, set(M.SUBDTYPE[t.name]))(d)
     if isinstance(d, TypeObj):
         d = DType(astype_kind(it, d))
     if not isinstance(d, DType):
@@ -1001,6 +1045,11 @@ def _reduction(name, needs_nonempty=False):
     def fn(it, args, kwargs):
         a = as_arr(it, args[0])
         s = a.seq
+        if name in ("all", "any") and s.sort == BOOL and not getattr(it, "np_scalars", False):
+            j = z3.Int("j!" + name)          # exact meaning on boolean arrays
+            if name == "all":
+                return z3.ForAll([j], z3.Implies(in_range(j, s.len), s.at(j)))
+            return z3.Exists([j], z3.And(in_range(j, s.len), s.at(j)))
         if needs_nonempty and not it.ctx.branch(zint(s.len) > 0):
             raise PyRaise("ValueError", f"zero-size array to reduction operation {name} which has no identity")
         extra = list(args[1:]) + [kwargs[k] for k in sorted(kwargs)]
